@@ -6,18 +6,18 @@ from vt import detsched as ds, sysx
 
 ID = 'C30'
 ENGINE = 'detsched'
-TECHNIQUE = 'runtime monitoring under a deterministic cooperative scheduler (opcode-level yield points in miros/singleton.py): identity oracle over concurrent first requests'
+TECHNIQUE = 'runtime monitoring under a deterministic cooperative scheduler (opcode-level yield points in miros/singleton.py): identity oracle over concurrent first requests; a few small scenarios per run are enumerated systematically (every schedule within a delay bound, vt/sysx.py)'
 RULE = ('2-5 real threads make the FIRST request of a fresh SingletonDecorator over each of the five real classes (ActiveFabricSource, '
         'SignalSource, ReturnStatusSource, the fabric run event class, the live-output writer class) at the same time, and 2-3 threads '
         'construct ActiveObject() concurrently in a process-fresh state (which requests ActiveFabric, the fabric run event and the writer '
         'lazily); detsched switches threads at every bytecode boundary of SingletonDecorator.__call__ and every line of the constructors '
         '(seeded random and PCT schedules); all returned objects must be the same object and later requests must return it too. ' +
-        sysx.RULE_TEXT % (1, 2) +
+        sysx.RULE_TEXT % (1, 3) +
         'distinct_nontrivial = distinct context-switch sequences in which >= 2 threads were inside __call__ at the same time')
 CASES = {'quick': 1500, 'thorough': 100000}
 BUDGET = {'quick': 150, 'thorough': 600}
 REQUIRE = {'runs': 800, 'overlapping_first_requests': 200, 'active_object_constructions': 100, 'systematic_schedules': 300, 'systematic_scenarios_exhausted': 6}
-SYS = {'quick': (16, 1, 2500, 30.0), 'thorough': (32, 2, 100000, 150.0)}     # systematic cases, preemption bound, schedule cap, seconds cap (per scenario)
+SYS = {'quick': (16, 1, 2500, 30.0), 'thorough': (32, 3, 100000, 150.0)}     # systematic cases, preemption bound, schedule cap, seconds cap (per scenario)
 ASSUME = ['fresh SingletonDecorator objects per run (same class as the module-level ones); module-level instances created at import are not re-raced']
 ANNOUNCE_CASES = True
 KLASSES = ['ActiveFabricSource', 'SignalSource', 'ReturnStatusSource', 'SourceThreadEvent', 'InstrumenationWriterClass']
